@@ -11,7 +11,9 @@ HERE = os.path.dirname(os.path.abspath(__file__))
 ASSUMPTIONS = [
     "only feature subsets this x86-64 host can execute are compared (it reports SHA-NI, SSSE3, SSE2, SSE4.2 and AES-NI); ARM paths are never run",
     "the reference is the all-portable build of the same sources (C03 is about path equality; equality with the specifications is C01/C02)",
-    "a path that fails the library's own start-up self-test is disabled by the library and then legitimately not exercised",
+    "a path that fails the library's own start-up self-test is disabled by the library and then legitimately not exercised; four extra variants make "
+    "exactly that happen (one accelerated primitive is wrapped at link time and flips a bit of its result): the self-test must notice and all users of "
+    "the unit must fall back consistently",
     "trusted: clang 14 + ASan/UBSan, rapidcheck, dlopen(RTLD_LOCAL) + -Bsymbolic isolation of the per-configuration copies",
 ]
 SUBS = [
@@ -41,7 +43,14 @@ def variants():
     out.append(("b_SEA_C32", [f for f in full if f != "X86_SSE42_64"], None))
     for rm in RUNTIME_MASKS:
         out.append(("full_m%d" % rm, full, rm))
+    # full builds in which ONE accelerated primitive computes wrongly (ld --wrap flips a bit of its result): the library's start-up
+    # self-test must notice and every user of that unit must fall back consistently -- selection may change speed only
+    for tag, sym in FAULTY:
+        out.append(("full_bad" + tag, full, None, sym))
     return out
+
+
+FAULTY = [("A", "crypto_aes_encrypt_block_aesni"), ("C", "CRC32C_Update_SSE42"), ("S", "SHA256_Transform_shani"), ("E", "SHA256_Transform_sse2")]
 
 
 def build(B):
@@ -51,17 +60,19 @@ def build(B):
     built = {}
 
     def one(v):
-        name, cpu, rm = v
-        key = ",".join(sorted(cpu))
+        name, cpu, rm = v[0], v[1], v[2]
+        faulty = v[3] if len(v) > 3 else None
+        key = ",".join(sorted(cpu)) + "|" + (faulty or "")
         if key not in built:
             objs = B.build_lib("pic", cpu=cpu, only=FILES)
-            shim = B.compile_c(os.path.join(HERE, "vshim.c"), variant="pic", cpu=cpu)
+            shim = B.compile_c(os.path.join(HERE, "vshim.c"), variant="pic", cpu=cpu, extra_flags=(["-DC03_FAULTY_" + faulty] if faulty else []))
             lst = sorted(objs.values()) + [shim]
-            h = hashlib.sha256("\n".join(lst).encode()).hexdigest()[:20]
+            wrap = ["-Wl,--wrap=" + faulty] if faulty else []
+            h = hashlib.sha256("\n".join(lst + wrap).encode()).hexdigest()[:20]
             so = os.path.join(cache, h + ".so")
             if not os.path.exists(so):
                 tmp = so + ".tmp%d" % os.getpid()
-                r = subprocess.run(["clang", "-shared"] + B.SAN + ["-Wl,-Bsymbolic", "-o", tmp] + lst + ["-lcrypto"], capture_output=True, text=True)
+                r = subprocess.run(["clang", "-shared"] + B.SAN + ["-Wl,-Bsymbolic"] + wrap + ["-o", tmp] + lst + ["-lcrypto"], capture_output=True, text=True)
                 if r.returncode != 0:
                     sys.stderr.write("LINK FAILED %s\n%s\n" % (name, r.stderr))
                     raise SystemExit(4)
@@ -80,7 +91,7 @@ def build(B):
 
 MANIFEST = dict(
     engine="rapidcheck + per-configuration shared objects loaded side by side (dlopen)",
-    technique="differential property testing across build/CPU configurations: the same generated input, alignment and call partition is executed by 26 copies of the library (16 build subsets, one 32-bit-only SSE4.2 build, 9 run-time feature masks) and compared bit for bit with the all-portable build",
+    technique="differential property testing across build/CPU configurations: the same generated input, alignment and call partition is executed by 30 copies of the library (16 build subsets, one 32-bit-only SSE4.2 build, 9 run-time feature masks, 4 builds in which one accelerated primitive computes wrongly and must be rejected by the start-up self-test) and compared bit for bit with the all-portable build",
     text="SHA-256/HMAC, CRC32C, AES block and AES-CTR are executed in one process by every configuration this host can run; any differing output bit is a "
          "violation attributed to the path that produced it. Generators aim at the per-path thresholds (CRC32C 8 bytes, AES-CTR 16 bytes), buffer "
          "alignments 0..15, padding boundaries, counter carries and partitions that switch between accelerated and portable code inside one stream. "
